@@ -1,6 +1,7 @@
 package main
 
 import (
+	"os"
 	"reflect"
 	"runtime"
 	"errors"
@@ -543,6 +544,73 @@ func aliasObservation(op string, attrs []attr, mkIns func() []tensor.Tensor) {
 	}
 }
 
+var viewAll = goOnlyResult{Stream: "view_inputs", Rule: "every input of rank >= 1 handed over as a NON-CONTIGUOUS view with the same logical contents (a stepped slice of a tensor whose last axis is interleaved with other values): the outcome must be the one for contiguous tensors", Violations: []string{}, Known: map[string]int{}}
+
+// a stepped view with the logical contents of t (nil when t cannot be viewed this way)
+func asView(t tensor.Tensor) (v tensor.Tensor) {
+	defer func() {
+		if r := recover(); r != nil {
+			v = nil
+		}
+	}()
+	sh := t.Shape()
+	if len(sh) == 0 {
+		return nil
+	}
+	src := reflect.ValueOf(t.Data())
+	if src.Kind() != reflect.Slice {
+		return nil
+	}
+	last := sh[len(sh)-1]
+	n := src.Len()
+	big := reflect.MakeSlice(src.Type(), 2*n, 2*n)
+	for i := 0; i < n; i++ {
+		big.Index(2 * i).Set(src.Index(i))
+		big.Index(2*i + 1).Set(src.Index((i + 1) % n)) // foreign elements in between
+	}
+	bs := append([]int{}, sh...)
+	bs[len(bs)-1] = 2 * last
+	bt := tensor.New(tensor.WithShape(bs...), tensor.WithBacking(big.Interface()))
+	sl := make([]tensor.Slice, len(sh))
+	for i := range sl {
+		sl[i] = nil
+	}
+	sl[len(sh)-1] = ops.NewSlicer(0, 2*last, 2)
+	out, err := bt.Slice(sl...)
+	if err != nil {
+		return nil
+	}
+	return out
+}
+
+func viewObservation(op string, attrs []attr, mkIns func() []tensor.Tensor, obs string) {
+	ins := mkIns()
+	any := false
+	for i, t := range ins {
+		if t == nil {
+			continue
+		}
+		if v := asView(t); v != nil && tval(v) == tval(t) {
+			ins[i] = v
+			any = true
+		}
+	}
+	if !any {
+		return
+	}
+	viewAll.N++
+	if got := observe(op, attrs, ins); got != obs {
+		viewAll.Known[op]++
+		if len(viewAll.Violations) < 40 {
+			ap := make([]string, len(attrs))
+			for i, x := range attrs {
+				ap[i] = x.gallina()
+			}
+			viewAll.Violations = append(viewAll.Violations, fmt.Sprintf("%s [%s]: with view inputs %s, contiguous %s (inputs %s)", op, strings.Join(ap, ";"), clip(got, 200), clip(obs, 200), clip(tvals(mkIns()), 200)))
+		}
+	}
+}
+
 // rotate every input's backing array by one element, in place (scalars and nil inputs are left alone)
 func rotateInPlace(ts []tensor.Tensor) {
 	for _, t := range ts {
@@ -607,6 +675,9 @@ func sideObservations(op string, attrs []attr, mkIns func() []tensor.Tensor, obs
 	refillObservation(op, attrs, mkIns)
 	attrOrderObservation(op, attrs, mkIns, obs)
 	aliasObservation(op, attrs, mkIns)
+	if os.Getenv("VERIF_VIEWS") != "" {
+		viewObservation(op, attrs, mkIns, obs)
+	}
 	if elementwiseOps[op] {
 		sizeObservation(op, attrs, mkIns)
 	}
